@@ -8,7 +8,7 @@ real repository after every command."""
 from . import histcheck
 
 LEVEL = "proof"
-PROFILES = [('BASIC', 3), ('REORDER', 1), ('UNDO', 1), ('BIG', 0.5), ('REPAIR', 0.7)]
+PROFILES = [('BASIC', 3), ('REORDER', 1), ('UNDO', 1), ('BIG', 0.5), ('REPAIR', 0.7), ('COMMIT', 1)]
 ORACLES = ['c01']
 
 
